@@ -74,7 +74,7 @@ def _layout_some(run):
 
 def run():
     chk = core_check("C18", cfgs=("A",), annotate=_layout_some, quick_keep=16, thorough_keep=4, overrides={"HostileOK": True},
-                     sessions_quick=320, sessions_thorough=3000, extra=_structural, traces=(3000, 60000),
+                     sessions_quick=320, sessions_thorough=1200, extra=_structural, traces=(3000, 20000),
                      # real sessions: programs where several categories are pending AND approved (the report loop of
                      # the plugin handles the categories one after the other on the same recorder)
                      session_filter=lambda r: len(r["exp"]["F"]) >= 2 and sum(1 for p in r["exp"]["pending"] if len(p) >= 2) > 0)
